@@ -234,7 +234,7 @@ impl Property for C09 {
         vec!["the write is taken to happen somewhere between the start of the port cycle and the end of the OUT instruction; pixels within 8 T of that span may show either colour", "code runs in uncontended RAM; ports have an uncontended high byte unless stated (the instants are observed, not predicted)"]
     }
     fn expected_probes(&self) -> Vec<&'static str> {
-        vec!["frame_without_write", "several_writes_one_line", "write_in_retrace", "write_straddles_frame_end", "write_in_last_lines", "snapshot_border", "write_before_first_border_line", "snapshot_between_frames", "szx_fe_low_differs", "program_multi_frame_call", "write_in_unpresented_frame", "even_port_other_than_fe", "szx_taken_inside_a_frame", "screenshot_between_frames", "rejected_file_between_frames"]
+        vec!["frame_without_write", "several_writes_one_line", "write_in_retrace", "write_straddles_frame_end", "write_in_last_lines", "snapshot_border", "write_before_first_border_line", "snapshot_between_frames", "szx_fe_low_differs", "program_multi_frame_call", "write_in_unpresented_frame", "even_port_other_than_fe", "szx_taken_inside_a_frame", "screenshot_between_frames", "rejected_file_between_frames", "instant_load_through_custom_entry"]
     }
 
     fn gen(&self, rng: &mut Rng, tier: Tier, _idx: u64) -> Scenario {
@@ -289,7 +289,7 @@ impl Property for C09 {
                 let ft = if rng.bool() { 0 } else { rng.range(1, f - 1) };
                 sc.op("snap", &[rng.range(0, 7), rng.range(0, 1), rng.range(0, 7), ft]);
             } else if snap_mid && fr > 0 && rng.chance(1, 4) {
-                sc.op(if rng.bool() { "scr" } else { "rej" }, &[rng.range(0, 1 << 20)]);
+                sc.op(*rng.pick(&["scr", "rej", "fl"]), &[rng.range(0, 1 << 20)]);
             }
             let n = *rng.pick(&[0i64, 0, 1, 1, 2, 3, 5, 8, 12]);
             let mut ts: Vec<i64> = vec![];
@@ -322,7 +322,7 @@ impl Property for C09 {
 
     fn exec(&self, sc: &Scenario, ctx: &mut RunCtx) -> Result<(), Fail> {
         let m128 = sc.get("m128") != 0;
-        let cfg = MCfg { m128, ..Default::default() };
+        let cfg = MCfg { m128, fastload: true, ..Default::default() };
         let f = cfg.frame_len() as i64;
         let line = cfg.line_len() as i64;
         let first = if m128 { 14362i64 } else { 14336 };
@@ -483,6 +483,56 @@ impl Property for C09 {
                     load_snap(&mut e, m128, b, fmt, fe, ft)?;
                     colour = b;
                     start_colour = b;
+                }
+                "fl" => {
+                    // a program with its own loader front end enters the ROM routine behind the point where the ROM
+                    // would have arranged its border restore (the usual custom-loader trick); the host's instant
+                    // loader serves the block. No ULA port write is executed on the way: the border stays.
+                    if frame_done || !cur.is_empty() || !pending.is_empty() || e.verif_frame_clocks() > 64 {
+                        continue;
+                    }
+                    ctx.probe("instant_load_through_custom_entry");
+                    let before = e.border_color() as u8;
+                    let payload = Rng::new(op.arg(0) as u64).bytes(20);
+                    let tap = zxref::tape::make_tap(&[zxref::tape::std_block(0xFF, &payload)]);
+                    e.load_tape(rustzx_core::host::Tape::Tap(AnyAsset::Sim(SimAsset::plain(tap)))).map_err(|x| Fail::new("C09.load", "", format!("load_tape: {:?}", x)))?;
+                    if m128 {
+                        e.verif_bus().write_io(0x7FFD, 0x10);
+                    }
+                    // system variable BORDCR holds another colour than the border
+                    write_mem(&mut e, 0x5C48, &[((before + 3) & 7) << 3]);
+                    write_mem(&mut e, 0x8100, &[0x14, 0x08, 0x15, 0xF3, 0xC3, 0x62, 0x05]); // INC D; EX AF,AF'; DEC D; DI; JP 0562
+                    write_mem(&mut e, 0x8FEE, &[0x00, 0x82]);
+                    // (the instant loader hands control to the return address without an instruction ending there: the
+                    // breakpoint is reported when the `JR $` parked at that address has run once)
+                    write_mem(&mut e, 0x8200, &[0x18, 0xFE]);
+                    let mut st = cpu_state(&mut e);
+                    st.pc = 0x8100;
+                    st.sp = 0x8FEE;
+                    st.af = 0xFF01;
+                    st.ix = 0x9000;
+                    st.de = 20;
+                    st.iff1 = false;
+                    st.iff2 = false;
+                    st.halted = false;
+                    st.to_impl(e.verif_cpu());
+                    let back = run_until_pc(&mut e, 0x8200, 1).map_err(|x| Fail::new("C09.run", "", x))?;
+                    let mut st = cpu_state(&mut e);
+                    let loaded = back && st.af & 1 == 1 && (0..20).all(|i| e.peek(0x9000 + i as u16) == payload[i]);
+                    st.pc = IDLE;
+                    st.sp = 0x8FF0;
+                    st.to_impl(e.verif_cpu());
+                    if !back || e.verif_passed_frames() > 0 {
+                        // the request was not served at once (fast loading is C10's matter): this history ends here
+                        return Ok(());
+                    }
+                    if loaded && e.border_color() as u8 != before {
+                        return Err(Fail::new(
+                            "C09.border_changed_by_load",
+                            &format!("machine={},what=instant_load", if m128 { "128k" } else { "48k" }),
+                            format!("border_color() was {} before and is {} after a tape block was served by the instant loader (no port write was executed; BORDCR holds {})", before, e.border_color() as u8, (before + 3) & 7),
+                        ));
+                    }
                 }
                 "scr" | "rej" => {
                     // the host loads a screenshot (which carries no border), or offers a file the loader refuses:
